@@ -160,7 +160,7 @@ Definition check_tab (deep : bool) (es : list entry) (target : N) (ts : list ota
   flag (forallb (fun s => oentries_eqb (sc_fresh s) (Some (scan_spec es (sc_prefix s)))) scans) 104 ++
   flag (forallb (fun s => oentries_eqb (sc_reopen s) (Some (scan_spec es (sc_prefix s)))) scans) 105 ++
   (* split tables: none empty unless the run is empty, ranges = first/last key, disjoint and ascending *)
-  flag (match es with [] => Nat.eqb (length ts) 1 | _ => forallb (fun c => negb (Nat.eqb (length c) 0)) ochunks end) 106 ++
+  flag (match es with [] => true | _ => forallb (fun c => negb (Nat.eqb (length c) 0)) ochunks end) 106 ++
   flag (forallb range_is_first_last ts && (match es with [] => true | _ => ranges_ascending ts end)) 107 ++
   (* size rule *)
   flag ((target =? 0) || size_rule target (split_by (map (@length _) ochunks) es)) 108 ++
